@@ -61,6 +61,15 @@ func normalize(network Network, proto Protocol, req, resp *dns.Msg, maxMsgSize u
 			},
 			Option: filterUnsupportedOptions(reqOpt.Option),
 		}
+
+		// Reflect the UDP payload size and the DO bit of the request in the
+		// same way as it is done for the responses that already have an OPT
+		// record.
+		respOpt.SetUDPSize(ednsUDPSize)
+		if reqOpt.Do() {
+			respOpt.SetDo()
+		}
+
 		resp.Extra = append(resp.Extra, respOpt)
 	}
 
